@@ -103,7 +103,7 @@ fn long_close_case(rng: &mut Rng, case: i64) -> Value {
     let (p, q) = (1u32, 2u32);
     let cr: Vec<&str> = cands.iter().map(|c| c.as_str()).collect();
     let res = rec::guarded(|| {
-        get_close_matches(word.as_str(), &cr, nres, p as f32 / q as f32)
+        rec::hostile(|| get_close_matches(word.as_str(), &cr, nres, p as f32 / q as f32))
             .into_iter()
             .map(|x| cps(x))
             .collect::<Vec<Value>>()
@@ -172,13 +172,13 @@ pub fn drive_c18(a: &Args, out: &mut Out) {
         let res = rec::guarded(|| {
             if bytes_mode {
                 let cb: Vec<&[u8]> = cands.iter().map(|c| c.as_bytes()).collect();
-                get_close_matches(word.as_bytes(), &cb, nres, cutoff)
+                rec::hostile(|| get_close_matches(word.as_bytes(), &cb, nres, cutoff))
                     .into_iter()
                     .map(|x| cps(std::str::from_utf8(x).unwrap()))
                     .collect::<Vec<Value>>()
             } else {
                 let cr: Vec<&str> = cands.iter().map(|c| c.as_str()).collect();
-                get_close_matches(word.as_str(), &cr, nres, cutoff)
+                rec::hostile(|| get_close_matches(word.as_str(), &cr, nres, cutoff))
                     .into_iter()
                     .map(|x| cps(x))
                     .collect::<Vec<Value>>()
@@ -208,6 +208,8 @@ fn inline_record<T: DiffableStr + ?Sized>(case: i64, alg: Algorithm, mode: &str,
                 .collect();
             if expired {
                 rec::install_clock(0, false);
+            } else {
+                rec::install_hostile_clock(); // no deadline is passed: the clock must be unobservable
             }
             let deadline = if expired { Some(rec::far_future()) } else { None };
             let inl: Vec<Value> = diff
@@ -398,6 +400,7 @@ pub fn udiff_record<T: DiffableStr + ?Sized>(
     let render = |repair: bool| {
         similar::verif_hooks::set_swap_repair(repair);
         let _ = similar::verif_hooks::take_swap_count();
+        rec::install_hostile_clock(); // no deadline is configured: the clock must be unobservable
         let r = rec::guarded(|| {
             let mut cfg = TextDiff::configure();
             cfg.algorithm(alg);
@@ -424,6 +427,7 @@ pub fn udiff_record<T: DiffableStr + ?Sized>(
             ud.to_writer(&mut cw).unwrap();
             (w, d.into_bytes(), hw, ops_json(diff.ops()), cw.0)
         });
+        rec::remove_clock();
         similar::verif_hooks::set_swap_repair(false);
         let swaps = similar::verif_hooks::take_swap_count();
         (r, swaps)
